@@ -32,9 +32,9 @@ QuickConfs == Reg(0..4, 1..3, {-1, 2}, {<<0, FALSE>>, <<2, TRUE>>}, BOOLEAN, Dec
 \* (Thorough1Confs), and two faults on a smaller space (FaultConfs)
 ThoroughConfs == Reg(0..7, 1..3, {-1, 2, 4}, MinsT, BOOLEAN, Decls, {"else", "repo"}, {"query"})
                  \cup Oci(0..4, Decls)
-Thorough1Confs == Reg(0..6, 1..3, {-1, 2, 4}, MinsT, BOOLEAN, Decls, {"else", "repo"}, {"query"})
+Thorough1Confs == Reg(0..5, 1..3, {-1, 2, 4}, MinsT, BOOLEAN, Decls, {"else", "repo"}, {"query"})
 FaultConfs == Reg(0..5, 1..3, {-1, 2}, {<<0, FALSE>>, <<2, TRUE>>}, BOOLEAN, {"none", "right", "wrongdig", "sizeplus"},
-                  {"else"}, {"plain", "query"})
+                  {"else"}, {"query"})
 \* liveness (termination) on a smaller space
 LiveConfs == Reg(0..4, 1..3, {-1, 2}, {<<0, FALSE>>, <<2, TRUE>>}, {TRUE}, {"none", "right", "wrongdig"}, {"else"}, {"query"})
 \* S13: a destination that enforces its minimum and nevertheless accepts partially
